@@ -391,6 +391,22 @@ def cascade_case(ctx, scen, i):
         lines += ['iter m0 keys', 'stats m0', 'len m0', 'closeall', 'snap db']
         pair(ctx, 'cascade', i, lines, files_oracle=True, op_timeout=60)
         return
+    if i % 8 == 6:
+        # a chain that does NOT descend in file offset, and a two-level cascade through it: T, E, K, P chained (K and P fill their
+        # slots exactly), one entry with a 17000-byte key and value pushes both files past 16 KiB, E is deleted and a new key X re-uses
+        # its LOW slot as the new chain head; then K's value moves (its offset field widens: K moves) and P's link to K widens (P
+        # moves too): P's predecessor has to be found by walking X (low offset) and the big entry (high offset)
+        kt, base = ('string', 0xC1) if i % 16 == 6 else ('bytes', 65)
+        cls = r.choice([(10, 11), (18, 19), (26, 27)])
+        T, E, K, P = [bytes([base + j]) * (cls[0] if j else cls[0]) for j in range(4)]
+        X = bytes([base + 9]) * (cls[0] - 1)
+        keys = [T, K, P, X]
+        lines = ['db d0 db', 'map m0 d0 %s m B1' % kt] + ['put m0 %s z3x%d' % (k.hex(), j) for j, k in enumerate([T, E, K, P])]
+        lines += ['put m0 z17000x7 z17000x9', 'del m0 %s' % E.hex(), 'put m0 %s 05' % X.hex()] + ['get m0 %s' % k.hex() for k in keys]
+        lines += ['put m0 %s z%dx4' % (K.hex(), r.choice([100, 300]))] + ['get m0 %s' % k.hex() for k in keys] + ['get m0 z17000x7', 'len m0', 'iter m0 iter']
+        lines += ['del m0 %s' % P.hex()] + ['get m0 %s' % k.hex() for k in keys] + ['len m0', 'stats m0', 'closeall', 'snap db']
+        pair(ctx, 'cascade', i, lines, files_oracle=True, op_timeout=60)
+        return
     if i % 4 == 1:
         # a moved key record lands BELOW its old place: key slots of the next size class are freed at low offsets first (early keys,
         # deleted later), so that a record that outgrows its slot is re-written into one of them - by an overwrite (put path) and by
